@@ -136,6 +136,7 @@ IGet(ty, id)            == [op |-> "get", ty |-> ty, id |-> id]
 IContains(ty, id)       == [op |-> "contains", ty |-> ty, id |-> id]
 IGoi(ty, id, n)         == [op |-> "goi", ty |-> ty, id |-> id, n |-> n]
 IIndirect(id, ext, ty, req) == [op |-> "indirect", id |-> id, ext |-> ext, ty |-> ty, req |-> req]
+IIndirectNR(id, ext, ty, req) == [op |-> "indirectnr", id |-> id, ext |-> ext, ty |-> ty, req |-> req]
 INoRec(body)            == [op |-> "norec", body |-> body]
 IReadReq(id, ext)       == [op |-> "readreq", id |-> id, ext |-> ext]    \* the script fails if the read fails
 ITry(body)              == [op |-> "try", body |-> body]                 \* catch_unwind around the body
@@ -357,6 +358,16 @@ Instr(E, R, k, ins, scripts) ==
             IF rd.st.s # "ok" \/ rd.st.c.c # "ref"
             THEN Step(rd.E, rd.R, OErr, IF ins.req THEN EScript ELSE None, FALSE)
             ELSE LET r == LoadKey(rd.E, rd.R, Key(ins.ty, rd.st.c.to), "load", scripts) IN
+                 IF r.ok THEN Step(r.E, r.R, OVal(r.val), None, FALSE)
+                 ELSE IF r.panic THEN Step(r.E, r.R, OErr, EPanic, TRUE)
+                 ELSE Step(r.E, r.R, OErr, IF ins.req THEN r.err ELSE None, FALSE)
+      [] ins.op = "indirectnr" ->
+            \* the selector file is read inside no_record (nothing recorded for it), what it selects is loaded
+            \* under the caller's recorder: the recorded set can shrink to exactly nothing
+            LET rd == DoRead(E, RecOff, ins.id, ins.ext) IN
+            IF rd.st.s # "ok" \/ rd.st.c.c # "ref"
+            THEN Step(rd.E, R, OErr, IF ins.req THEN EScript ELSE None, FALSE)
+            ELSE LET r == LoadKey(rd.E, R, Key(ins.ty, rd.st.c.to), "load", scripts) IN
                  IF r.ok THEN Step(r.E, r.R, OVal(r.val), None, FALSE)
                  ELSE IF r.panic THEN Step(r.E, r.R, OErr, EPanic, TRUE)
                  ELSE Step(r.E, r.R, OErr, IF ins.req THEN r.err ELSE None, FALSE)
